@@ -68,5 +68,5 @@ OBLIGATIONS += [dict(OB_DEPS, id='C03.deps')]
 from harness.nsrun import ns_fault_obligations, nsfaulted  # noqa: E402
 OBLIGATIONS += ns_fault_obligations('c03', 'C03', ['up-stream', 'down-stream'])
 
-from harness.coupload import OB_PROTO, protocol  # noqa: E402
+from harness.coupload import OB_PROTO, protocol_fixed  # noqa: E402
 OBLIGATIONS += [dict(OB_PROTO, id='C03.proto', tier='thorough')]
